@@ -38,7 +38,7 @@ def universes(quick):
         het = het + [{"a": 2, "b": 2, "c": "é"}]
         nested = nested + [{"n": {"x": 2, "y": "v.1"}, "a": 2}]
         collide = collide + [{"x/y": 1, "a": 1.5}]
-        jobkey = jobkey + [{"a": "job", "job": 1}]
+        jobkey = [{"job": 1}, {"job": 2}, {"a": "job", "job": 1}]
     us = [Universe("hom", hom, ["auto", "tree", "flat"] if quick else ["auto", "id", "tree", "flat"]), Universe("het", het, ["auto", "id", "tree"]),
           Universe("nested", nested, ["auto", "flat", "const"]),
           Universe("collide", collide, ["auto", "id"], orders=["asc", "desc"]),
